@@ -9,7 +9,7 @@ DEFS = [
     Tpl("fr", 'DEFFRAME {q} "{f}":\n\tDIRECTION: "tx"', q=("int", QS), f=("str", FN)),
     Tpl("fr", 'DEFFRAME {q} "{f}":\n\tDIRECTION: "rx"', q=("int", QS), f=("str", FN)),
     Tpl("wf", "DEFWAVEFORM {w}:\n\t1.0, 1.0", w=("str", WN)),
-    Tpl("wf", "DEFWAVEFORM {w}:\n\t2.0, 2.0", w=("str", WN)),
+    Tpl("wf", "DEFWAVEFORM {w}(%a):\n\t%a, 2.0", w=("str", WN)),
     Tpl("ex", 'PRAGMA EXTERN {e} "(x : INTEGER)"', e=("str", EN)),
     Tpl("ex", 'PRAGMA EXTERN {e} "(x : mut INTEGER)"', e=("str", EN)),
     Tpl("decl", "DECLARE ro INTEGER[2]"),
@@ -21,11 +21,14 @@ CALS = [
     Tpl("cal-pulse", 'DEFCAL {g} v:\n\tPULSE v "{f}" {w}', g=("str", GN), f=("str", FN), w=("str", WN)),
     Tpl("cal-call", "DEFCAL {g} v:\n\tCALL {e} ro[0]", g=("str", GN), e=("str", EN)),
     Tpl("cal-fence", "DEFCAL {g} v:\n\tFENCE v", g=("str", GN)),
+    Tpl("cal-fixed", 'DEFCAL {g} {r}:\n\tPULSE {r} "{f}" {w}', g=("str", GN), r=("int", QS), f=("str", FN), w=("str", WN)),
     Tpl("cal-measure", 'DEFCAL MEASURE v addr:\n\tCAPTURE v "{f}" {w} addr[0]', f=("str", FN), w=("str", WN)),
 ]
 BODY = [
     Tpl("gate1", "{g} {q}", g=("str", GN), q=("int", QS)),
     Tpl("pulse-named", 'PULSE {q} "{f}" {w}', q=("int", QS), f=("str", FN), w=("str", WN)),
+    Tpl("pulse-args", 'PULSE {q} "{f}" {w}(a: 1.0)', q=("int", QS), f=("str", FN), w=("str", WN)),
+    Tpl("reset0", "RESET"),
     Tpl("pulse-flat", 'PULSE {q} "{f}" ' + FLAT, q=("int", QS), f=("str", FN)),
     Tpl("capture-named", 'NONBLOCKING CAPTURE {q} "{f}" {w} ro[0]', q=("int", QS), f=("str", FN), w=("str", WN)),
     Tpl("call", "CALL {e} ro[0]", e=("str", EN)),
@@ -35,7 +38,7 @@ BODY = [
     Tpl("measure", "MEASURE {q} ro[1]", q=("int", QS)),
     Tpl("reset1", "RESET {q}", q=("int", QS)),
 ]
-QUICK_BODY = ("gate1", "pulse-named", "capture-named", "call", "fence1", "delay1", "measure")
+QUICK_BODY = ("gate1", "pulse-named", "pulse-args", "reset0", "capture-named", "call", "fence1", "delay1", "measure")
 DEF_KINDS = ("FrameDefinition", "WaveformDefinition", "Pragma", "Declaration", "GateDefinition", "CircuitDefinition", "CalibrationDefinition", "MeasureCalibrationDefinition")
 
 
@@ -46,6 +49,19 @@ def split(listing, n_body):
     for t in defs:
         out.setdefault(t[0], []).append(t)
     return out
+
+
+def body_qubits(td, ins):
+    """qubit operands of a body instruction of the alphabet"""
+    k, p = ins[0], (ins[1][0] if ins[1] else None)
+    if k in ("Gate", "Fence", "Delay"): return list(fld(td, p, k, "qubits"))
+    if k == "Measurement": return [fld(td, p, k, "qubit")]
+    if k in ("Pulse", "Capture", "RawCapture", "SetPhase", "SetFrequency", "SetScale", "ShiftPhase", "ShiftFrequency"):
+        return list(fld(td, fld(td, p, k, "frame"), "FrameIdentifier", "qubits"))
+    if k == "Reset":
+        q = fld(td, p, k, "qubit")
+        return [q[1][0]] if q[0] == "Some" else []
+    return []
 
 
 def oracle(req, decide, td, obs, m=None):
@@ -73,7 +89,12 @@ def oracle(req, decide, td, obs, m=None):
         ident = fld(td, d[1][0], "FrameDefinition", "identifier")
         for ins in b_e:
             r = ref_sets(td, decide, [ident], ins, m)
-            if r is not None and r != "unqualified-reset" and 0 in r[0]: return True
+            if r == "unqualified-reset":
+                # RESET without operand acts on every qubit the (simplified) program uses: frames on exactly that set
+                allq = [q for x in b_e for q in body_qubits(td, x)]
+                fq = fld(td, ident, "FrameIdentifier", "qubits")
+                if all(any(decide(tree_eq(a, b, m)) for b in allq) for a in fq) and all(any(decide(tree_eq(a, b, m)) for a in fq) for b in allq): return True
+            elif r is not None and 0 in r[0]: return True
         return False
 
     def waveform_used(d):
